@@ -1601,6 +1601,75 @@ fn sandwich(s: &mut Session, r: &mut Rng, n: usize) {
     }
 }
 
+/// Time that passes INSIDE one public call (the closure of `ProgressBar::update`, a custom
+/// `ProgressTracker::tick`): the elapsed keys of the frame drawn by that call must show the clock
+/// at draw time - the value `elapsed()` returns right after the call, the mock clock standing
+/// still - not the instant the call read when it started.  Oracle only.
+fn inside_call_time(s: &mut Session, r: &mut Rng, n: usize) {
+    struct Slow(u64);
+    impl ProgressTracker for Slow {
+        fn clone_box(&self) -> Box<dyn ProgressTracker> {
+            Box::new(Slow(self.0))
+        }
+        fn tick(&mut self, _: &ProgressState, _: Instant) {
+            vc::advance_clock_ns(self.0);
+        }
+        fn reset(&mut self, _: &ProgressState, _: Instant) {}
+        fn write(&self, _: &ProgressState, w: &mut dyn std::fmt::Write) {
+            let _ = w.write_str("s");
+        }
+    }
+    for i in 0..n {
+        let inside = *r.pick(&[1_000_000_000u64, 2_200_000_000, 61_000_000_000, 3_600_000_000_000, 90_000_000_000]);
+        let lead = dt(r);
+        let via_tracker = i % 2 == 1;
+        let desc = format!(
+            "inside-call-time lead={lead}ns inside={inside}ns via={} template=\"{{elapsed_precise}}|{{elapsed}}|{{pos}}\"",
+            if via_tracker { "tracker-tick" } else { "update-closure" }
+        );
+        vc::set_auto_step_ns(0);
+        vc::set_clock_ns(vc::ORIGIN_NS);
+        let spy = Spy::new(200, 50);
+        let res = catch(|| {
+            let pb = ProgressBar::with_draw_target(Some(100), ProgressDrawTarget::term_like(Box::new(spy.clone())));
+            let mut style = ProgressStyle::with_template("{elapsed_precise}|{elapsed}|{pos}{slow}").unwrap();
+            if via_tracker {
+                style = style.with_key("slow", Slow(inside));
+            }
+            pb.set_style(style);
+            vc::advance_clock_ns(lead);
+            spy.take();
+            if via_tracker {
+                pb.tick();
+            } else {
+                pb.update(|st| {
+                    vc::advance_clock_ns(inside);
+                    st.set_pos(3);
+                });
+            }
+            let fr = frames(spy.take());
+            (fr, pb.elapsed())
+        });
+        let (fr, after) = match res {
+            Ok(x) => x,
+            Err(e) => {
+                s.fail("panic", e, desc);
+                continue;
+            }
+        };
+        let line = fr.last().and_then(|f| f.first()).cloned().unwrap_or_default();
+        let mut parts = line.split('|');
+        let (a, b) = (parts.next().unwrap_or(""), parts.next().unwrap_or(""));
+        if a != FormattedDuration(after).to_string() {
+            s.fail("key:elapsed_precise", format!("drawn {line:?} but elapsed() is {after:?} right after the call (clock frozen)"), desc.clone());
+        } else if b != format!("{:#}", HumanDuration(after)) {
+            s.fail("key:elapsed", format!("drawn {line:?} but elapsed() is {after:?} right after the call (clock frozen)"), desc.clone());
+        }
+        s.count("inside-call-time");
+        s.oracle_only(desc, true);
+    }
+}
+
 fn main() {
     let a = args();
     let header = "From IndModel Require Import Base Keys.\nOpen Scope N_scope.\nOpen Scope string_scope.\n\
@@ -1638,6 +1707,7 @@ fn main() {
         run_case(&mut s, &cfg, &ops, "random");
     }
     sandwich(&mut s, &mut r, if a.thorough { 400 } else { 60 });
+    inside_call_time(&mut s, &mut r, if a.thorough { 200 } else { 40 });
     vc::set_auto_step_ns(0);
     s.finish();
 }
